@@ -744,6 +744,10 @@ class Interp:
             other = b if isinstance(a, (VTuple, VList, VDict, VSet)) else a
             if isinstance(other.ty, (TNum, TStr, TBool, TNone)):
                 return False
+            if isinstance(other.ty, TAny):
+                # a container of known size against an ARBITRARY value (e.g. a loop-carried local): equal or not - an unknown fact, both explored
+                self.ctx.ghost["nondet"] = True
+                return fresh("container_equals_unknown", z3.BoolSort())
             raise Unsupported("equality of container and symbolic value")
         x, y = self.ctx.to_val(a), self.ctx.to_val(b)
         for v in (x, y):
